@@ -32,21 +32,24 @@ variable {V : Type} [DecidableEq V] {β : V → V → Type}
 
 /-! ### Python dictionaries `{input_name: block}` of one output and `{out: {in: block}}` -/
 
-/-- `jac[o]`: a dictionary from input names to blocks; `none` = key absent. -/
-abbrev Row (β : V → V → Type) (o : V) := (v : V) → Option (β o v)
+/-- `jac[o]`: a dictionary from input names to blocks; `none` = key absent.
+    (A structure, not a bare function, so that the compiled driver evaluates an update once, when
+    the dictionary is built, and not at every later lookup.) -/
+structure Row (β : V → V → Type) (o : V) where
+  get : (v : V) → Option (β o v)
 
-def Row.empty {o : V} : Row β o := fun _ => none
+def Row.empty {o : V} : Row β o := ⟨fun _ => none⟩
 
 /-- `del row[k]` / `row.pop(k)`. -/
-def Row.erase {o : V} (r : Row β o) (k : V) : Row β o := fun v => if v = k then none else r v
+def Row.erase {o : V} (r : Row β o) (k : V) : Row β o := ⟨fun v => if v = k then none else r.get v⟩
 
 /-- `row[k] = x`. -/
 def Row.set {o : V} (r : Row β o) (k : V) (x : β o k) : Row β o :=
-  fun v => if h : k = v then some (h ▸ x) else r v
+  ⟨fun v => if h : k = v then some (h ▸ x) else r.get v⟩
 
 /-- `row[k] += x` if the key is present, `row[k] = x` otherwise. -/
 def Row.addAt [BlockOps β] {o : V} (r : Row β o) (k : V) (x : β o k) : Row β o :=
-  match r k with
+  match r.get k with
   | some old => r.set k (BlockOps.add old x)
   | none => r.set k x
 
@@ -64,7 +67,7 @@ structure Disc (β : V → V → Type) where
 
 /-- `copy_jacs(discipline.jac[o])` (empty dictionary when the key is absent). -/
 def DJac.row (j : DJac β) (o : V) : Row β o :=
-  fun v => if o ∈ j.rows ∧ v ∈ j.cols o then some (j.val o v) else none
+  ⟨fun v => if o ∈ j.rows ∧ v ∈ j.cols o then some (j.val o v) else none⟩
 
 /-- The deletion loop of `Discipline.linearize(compute_all_jacobians=False)`: only the
     differentiated outputs × differentiated inputs are kept; with no differentiated input or no
@@ -85,7 +88,7 @@ def innerOld [BlockOps β] {o : V} (j : DJac β) (w : V) (curr : β o w) :
   | [], r => r
   | v :: vs, r =>
     let loc := BlockOps.mul curr (j.val w v)
-    match r v with
+    match r.get v with
     | some old =>
       if w ≠ v then innerOld j w curr vs (r.set v (BlockOps.add old loc))
       else innerOld j w curr vs (r.set v loc)
@@ -94,9 +97,9 @@ def innerOld [BlockOps β] {o : V} (j : DJac β) (w : V) (curr : β o w) :
 /-- PINNED TREE: one output of one `reverse_chain_rule` call: the dictionary is mutated in place,
     in the order `sorted(set(jac[o]) & set(discipline.jac))`; composed keys are never removed. -/
 def stepRowOld [BlockOps β] {o : V} (vars : List V) (d : Disc β) (r : Row β o) : Row β o :=
-  let common := vars.filter (fun w => decide (w ∈ d.jac.rows) && (r w).isSome)
+  let common := vars.filter (fun w => decide (w ∈ d.jac.rows) && (r.get w).isSome)
   common.foldl (fun acc w =>
-    match acc w with
+    match acc.get w with
     | some curr => innerOld d.jac w curr (d.jac.cols w) acc
     | none => acc) r
 
@@ -113,7 +116,7 @@ def inner [BlockOps β] {o : V} (j : DJac β) (w : V) (curr : β o w) :
 /-- The names `sorted(set(row) & set(discipline.io.output_grammar))`. `vars` is the sorted list
     of all the variable names. -/
 def consumedKeys {o : V} (vars : List V) (outs : List V) (r : Row β o) : List V :=
-  vars.filter (fun w => decide (w ∈ outs) && (r w).isSome)
+  vars.filter (fun w => decide (w ∈ outs) && (r.get w).isSome)
 
 /-- REPAIRED TREE: one output of one `reverse_chain_rule` call.  The derivatives with respect to
     the variables the discipline computes are popped from the dictionary (the discipline
@@ -123,7 +126,7 @@ def stepRow [BlockOps β] {o : V} (vars : List V) (d : Disc β) (r : Row β o) :
   let consumed := consumedKeys vars d.outs r
   let r0 := consumed.foldl Row.erase r
   consumed.foldl (fun acc w =>
-    match r w with
+    match r.get w with
     | some curr => if w ∈ d.jac.rows then inner d.jac w curr (d.jac.cols w) acc else acc
     | none => acc) r0
 
@@ -145,7 +148,7 @@ def chainRowOld [BlockOps β] (vars : List V) (ds : List (Disc β)) (o : V) : Op
     a requested pair. `fill o x` is the zero block of shape `|o| × |x|`. -/
 def finishRow {o : V} (fill : (o x : V) → β o x) (row : Option (Row β o)) (x : V) : β o x :=
   match row with
-  | some r => (match r x with | some b => b | none => fill o x)
+  | some r => (match r.get x with | some b => b | none => fill o x)
   | none => fill o x
 
 def chainJac [BlockOps β] (vars : List V) (fill : (o x : V) → β o x) (ds : List (Disc β))
@@ -161,7 +164,7 @@ def chainJacOld [BlockOps β] (vars : List V) (fill : (o x : V) → β o x) (ds 
 /-- PINNED TREE: `chain_jacobian.update(output_jacobian)` for every discipline in order: a later
     writer of the same output overrides the common keys only. -/
 def parRowOld (ds : List (Disc β)) (o : V) : Row β o :=
-  ds.foldl (fun acc d => fun v => match d.jac.row o v with | some b => some b | none => acc v) Row.empty
+  ds.foldl (fun acc d => ⟨fun v => match (d.jac.row o).get v with | some b => some b | none => acc.get v⟩) Row.empty
 
 /-- REPAIRED TREE: the row of an output is the row of the last discipline computing it. -/
 def parRow (ds : List (Disc β)) (o : V) : Option (Row β o) :=
@@ -177,7 +180,7 @@ def parJacOld (fill : (o x : V) → β o x) (ds : List (Disc β)) (o x : V) : β
     (then zero-filled) when no discipline has a block for the pair. -/
 def addBlock [BlockOps β] (ds : List (Disc β)) (o x : V) : Option (β o x) :=
   ds.foldl (fun acc d =>
-    match d.jac.row o x with
+    match (d.jac.row o).get x with
     | some b => (match acc with | some a => some (BlockOps.add a b) | none => some b)
     | none => acc) none
 
